@@ -184,6 +184,6 @@ def queries(tier):
     return qs
 
 MANIFEST = {
-    "text": "Bounded symbolic check of the real HTTP chunk decoder, base64 codec, WebSocket mask/frame header stages and HTTP line parsers: segmentation independence, rule enforcement and well-formed output for all inputs within the stated lengths. Plus the buffered reader/writer of the real http_conn.c: every parser call sees exactly the unconsumed stream bytes in order and an exact read after the head returns the right bytes for every segmentation of a short stream (<= 3-4 segments), discard, full/raw writes under partial transport writes, over-long head lines; and websocket reassembly when the receiver arrives late (never a partial message) and the whole-message size limit with fragments already queued. Also a PING / PONG (0 or 2 payload bytes) arriving between two fragments of a message: answered / ignored, nothing delivered, the reassembly continues.",
+    "text": "Bounded symbolic check of the real HTTP chunk decoder, base64 codec, WebSocket mask/frame header stages and HTTP line parsers: segmentation independence, rule enforcement and well-formed output for all inputs within the stated lengths. Plus the buffered reader/writer of the real http_conn.c: every parser call sees exactly the unconsumed stream bytes in order and an exact read after the head returns the right bytes for every segmentation of a short stream (<= 3-4 segments), discard, full/raw writes under partial transport writes, over-long head lines; and websocket reassembly when the receiver arrives late (never a partial message) and the whole-message size limit with fragments already queued. Also a PING / PONG (0 or 2 payload bytes) arriving between two fragments of a message: answered / ignored, nothing delivered, the reassembly continues. The HTTP server's per-connection request loop (real http_server.c http_sconn_rxdone / _error / _txdone: 413 above the handler's body limit, routing errors, and - framing - the unread body of a refused request is skipped, exactly its announced length, before the next request is parsed) and two pipelined requests arriving in one segment (the response to the first must not alter the buffered bytes of the second; finding F35 - repaired).",
     "note": "One decoder stage per query; sha1 and the upgrade negotiation are outside the claim.",
 }
